@@ -94,3 +94,221 @@ func verifC13Path(maxMain, maxSide, maxMaxLen int) {
 		vapi.Assert("path.error-only-when-too-long", len(wantRevert)+len(wantApply) > maxLen-1)
 	}
 }
+
+// ---- rebasing transaction sets ---------------------------------------------
+
+// VerifH_C13_rebase: UpdateV2TransactionSet between two indices of a small
+// fork tree: survivors keep their order, confirmed members disappear, every
+// non-ephemeral proof ends up referring to the target, an ephemeral input whose
+// parent was confirmed on the way becomes that element, invalid proofs /
+// unknown bases / vanished elements give an error and never a panic.
+//
+//verif:harness prop=C13 tier=quick replay=interp z3timeout=400 require=rebased,rejected-proof,vanished bounds="chain b0 <- b1 <- b2 (b1 confirms P or nothing) and a fork b0 <- f1; set [X, P, C child of P] (+ optionally Y spending an output created in b1); from/to in {b0,b1,b2,f1}; symbolic invalid-proof flags"
+func VerifH_C13_rebase() {
+	newAbsPool()
+	w := &poolWorld{c: newAbsChain(), next: 1}
+	c := w.c
+	b0 := c.newBlock(0, true)
+	vapi.Assert("build.block", c.m.AddBlocks([]types.Block{b0}) == nil)
+	x := newV2(w.tag(), nil, w.parent())
+	p := newV2(w.tag(), nil, w.parent())
+	ch := newV2(w.tag(), &p)
+	confirm := vapi.Bool("confirm-parent")
+	var b1 types.Block
+	if confirm {
+		b1 = w.v2Block(p)
+	} else {
+		b1 = w.v2Block()
+	}
+	vapi.Assert("build.b1", c.m.AddBlocks([]types.Block{b1}) == nil && c.m.Tip().ID == b1.ID())
+	b2 := w.v2Block()
+	vapi.Assert("build.b2", c.m.AddBlocks([]types.Block{b2}) == nil && c.m.Tip().ID == b2.ID())
+	// a stale one-block fork on b0 that was applied once: make it the tip
+	// first? (kept simple: the fork is only a target/basis when it has a supplement)
+	idx := func(b types.Block) types.ChainIndex { return types.ChainIndex{Height: c.height[b.Nonce], ID: b.ID()} }
+	cands := []types.Block{b0, b1, b2}
+	from := cands[vapi.Int("from", 0, 2)]
+	to := cands[vapi.Int("to", 0, 2)]
+	set := []types.V2Transaction{x, p, ch}
+	withY := false
+	if confirm && from.Nonce != b0.Nonce && vapi.Bool("with-created") {
+		// Y spends the output P created in b1: valid at b1/b2 only
+		y := newV2(w.tag(), nil)
+		sces, _ := absBlockDiffs(b1, absLeafBase+1)
+		for _, d := range sces {
+			if d.Created {
+				y.SiacoinInputs = append(y.SiacoinInputs, types.V2SiacoinInput{Parent: d.SiacoinElement.Copy(), SatisfiedPolicy: types.SatisfiedPolicy{Policy: types.AnyoneCanSpend()}})
+				break
+			}
+		}
+		set = []types.V2Transaction{x, y}
+		withY = true
+	} else if from.Nonce != b0.Nonce && confirm {
+		// P is confirmed at the basis: a set valid there cannot contain it
+		set = []types.V2Transaction{x}
+	}
+	for i := range set {
+		absP.elemBad[v2tag(set[i])] = vapi.Bool("elemBad")
+	}
+	anyBad := false
+	for i := range set {
+		anyBad = anyBad || absP.elemBad[v2tag(set[i])]
+	}
+	in := make([]types.V2Transaction, len(set))
+	for i := range set {
+		in[i] = set[i].DeepCopy()
+	}
+	out, err := c.m.UpdateV2TransactionSet(in, idx(from), idx(to))
+	if from.Nonce == to.Nonce {
+		vapi.Assert("rebase.same-index-identity", err == nil && sameIDs(v2ids(out), v2ids(set)))
+		return
+	}
+	if anyBad {
+		vapi.Assert("rebase.invalid-proof-rejected", err != nil)
+		vapi.Reach("rejected-proof")
+		return
+	}
+	if withY && c.height[to.Nonce] < c.height[b1.Nonce] {
+		// the element Y spends does not exist at the target
+		vapi.Assert("rebase.vanished-element-rejected", err != nil)
+		vapi.Reach("vanished")
+		return
+	}
+	vapi.Assert("rebase.no-error", err == nil)
+	if err != nil {
+		return
+	}
+	vapi.Reach("rebased")
+	// survivors: members not confirmed by blocks applied on the way
+	var want []types.TransactionID
+	applied := c.height[to.Nonce] > c.height[from.Nonce]
+	for i := range set {
+		if applied && confirm && set[i].ID() == p.ID() && c.height[from.Nonce] < c.height[b1.Nonce] && c.height[to.Nonce] >= c.height[b1.Nonce] {
+			continue
+		}
+		want = append(want, set[i].ID())
+	}
+	vapi.Assert("rebase.survivors-in-order", sameIDs(v2ids(out), want))
+	for i := range out {
+		for j, sci := range out[i].SiacoinInputs {
+			se := sci.Parent.StateElement
+			wasEph := false
+			for k := range set {
+				if set[k].ID() == out[i].ID() {
+					wasEph = set[k].SiacoinInputs[j].Parent.StateElement.LeafIndex == types.UnassignedLeafIndex
+				}
+			}
+			pConfirmedOnPath := applied && confirm && c.height[from.Nonce] < c.height[b1.Nonce] && c.height[to.Nonce] >= c.height[b1.Nonce]
+			switch {
+			case wasEph && pConfirmedOnPath:
+				vapi.Assert("rebase.ephemeral-became-element", se.LeafIndex != types.UnassignedLeafIndex && se.LeafIndex > absLeafBase)
+			case wasEph:
+				vapi.Assert("rebase.ephemeral-stays", se.LeafIndex == types.UnassignedLeafIndex)
+			case se.LeafIndex < absLeafBase:
+				// a long-confirmed element: its proof now refers to the target
+				vapi.Assert("rebase.proof-at-target", len(se.MerkleProof) == 1 && se.MerkleProof[0][0] == byte(to.Nonce))
+			}
+		}
+	}
+}
+
+// VerifH_C13_set: V2TransactionSet returns the pooled unconfirmed ancestors
+// before their children (any dependency shape over <=3 ancestors), the
+// transaction last, a basis equal to the tip, and memory that does not alias
+// the pool.
+//
+//verif:harness prop=C13 tier=quick replay=interp z3timeout=400 require=chain,diamond,independent bounds="pool of 3 v2 transactions in shapes {independent, chain g->p->c, diamond a->b with txn spending a.out then b.out, deep chain}; basis = tip"
+func VerifH_C13_set() {
+	newAbsPool()
+	w := &poolWorld{c: newAbsChain(), next: 1}
+	c := w.c
+	b0 := c.newBlock(0, true)
+	vapi.Assert("build.block", c.m.AddBlocks([]types.Block{b0}) == nil)
+	tip := c.m.Tip()
+	add := func(ts ...types.V2Transaction) {
+		_, err := c.m.AddV2PoolTransactions(tip, ts)
+		vapi.Assert("build.pool", err == nil)
+	}
+	var txn types.V2Transaction
+	var ancestors []types.V2Transaction // in pool order
+	switch vapi.Int("shape", 0, 3) {
+	case 0: // independent
+		a := newV2(w.tag(), nil, w.parent())
+		add(a)
+		txn = newV2(w.tag(), nil, w.parent())
+		vapi.Reach("independent")
+	case 1: // chain g -> p -> c -> txn
+		g := newV2(w.tag(), nil, w.parent())
+		p := newV2(w.tag(), &g)
+		ch := newV2(w.tag(), &p)
+		add(g, p, ch)
+		txn = newV2(w.tag(), &ch)
+		ancestors = []types.V2Transaction{g, p, ch}
+		vapi.Reach("chain")
+	case 2: // diamond: a -> b ; txn spends a.out1 then b.out0
+		a := newV2(w.tag(), nil, w.parent())
+		a.SiacoinOutputs = append(a.SiacoinOutputs, types.SiacoinOutput{Value: types.NewCurrency64(9), Address: types.VoidAddress})
+		b := newV2(w.tag(), &a)
+		add(a, b)
+		txn = newV2(w.tag(), nil)
+		for _, in := range []types.SiacoinElement{a.EphemeralSiacoinOutput(1), b.EphemeralSiacoinOutput(0)} {
+			txn.SiacoinInputs = append(txn.SiacoinInputs, types.V2SiacoinInput{Parent: in, SatisfiedPolicy: types.SatisfiedPolicy{Policy: types.AnyoneCanSpend()}})
+		}
+		ancestors = []types.V2Transaction{a, b}
+		vapi.Reach("diamond")
+	case 3: // two parents, unrelated to each other, plus an unrelated pooled txn
+		a := newV2(w.tag(), nil, w.parent())
+		u := newV2(w.tag(), nil, w.parent())
+		b := newV2(w.tag(), nil, w.parent())
+		add(a)
+		add(u)
+		add(b)
+		txn = newV2(w.tag(), nil)
+		for _, in := range []types.SiacoinElement{b.EphemeralSiacoinOutput(0), a.EphemeralSiacoinOutput(0)} {
+			txn.SiacoinInputs = append(txn.SiacoinInputs, types.V2SiacoinInput{Parent: in, SatisfiedPolicy: types.SatisfiedPolicy{Policy: types.AnyoneCanSpend()}})
+		}
+		ancestors = []types.V2Transaction{a, b}
+	}
+	poolBefore := v2ids(c.m.V2PoolTransactions())
+	basis, set, err := c.m.V2TransactionSet(tip, txn)
+	vapi.Assert("set.no-error", err == nil)
+	vapi.Assert("set.basis-is-tip", basis == c.m.Tip())
+	vapi.Assert("set.size", len(set) == len(ancestors)+1)
+	if len(set) == len(ancestors)+1 {
+		vapi.Assert("set.txn-last", set[len(set)-1].ID() == txn.ID())
+		// every pooled ancestor is present
+		for _, a := range ancestors {
+			found := false
+			for i := range set {
+				found = found || set[i].ID() == a.ID()
+			}
+			vapi.Assert("set.all-ancestors", found)
+		}
+		// parents before children: every ephemeral input is created earlier in the set
+		for i := range set {
+			for _, sci := range set[i].SiacoinInputs {
+				if sci.Parent.StateElement.LeafIndex != types.UnassignedLeafIndex {
+					continue
+				}
+				ok := false
+				for j := 0; j < i; j++ {
+					for k := range set[j].SiacoinOutputs {
+						ok = ok || set[j].SiacoinOutputID(set[j].ID(), k) == sci.Parent.ID
+					}
+				}
+				vapi.Assert("set.parents-first", ok)
+			}
+		}
+		// the set is accepted by a fresh pool (here: the same pool reports it known)
+		known, err := c.m.AddV2PoolTransactions(basis, set[:len(set)-1])
+		vapi.Assert("set.parents-resubmittable", err == nil && (known || len(set) == 1))
+	}
+	// no aliasing of pool memory
+	for i := range set {
+		if len(set[i].SiacoinOutputs) > 0 {
+			set[i].SiacoinOutputs[0].Value = types.NewCurrency64(4242)
+		}
+		set[i].ArbitraryData[0] ^= 0xff
+	}
+	vapi.Assert("set.no-alias", sameIDs(v2ids(c.m.V2PoolTransactions()), poolBefore))
+}
